@@ -2,6 +2,7 @@
 import SkNet.Model.KernelIR
 import SkNet.Generated.KernelIR
 import SkNet.Model.KernelsHeap
+import SkNet.Model.KernelsVote
 
 namespace SkNet.Drive.C17
 open SkNet SkNet.Proto SkNet.IR
@@ -79,6 +80,15 @@ def handle : Handler
       let ip ← natList? ip
       let ix ← natList? ix
       match KHeap.computeCore? true ip ix with
+      | .ok l => some ("ok " ++ showList l)
+      | .error .oob => some "err oob"
+      | .error .fuel => some "err fuel") "bad-args"
+  -- checked model of vote_update: `c17.vote <n> <indptr> <indices> <data> <labels> <index>`
+  | "c17.vote", [n, ip, ix, dt, lb, idx] => some <| Option.getD (do
+      let c ← csrRat? n n ip ix dt
+      let lb ← intList? lb
+      let idx ← natList? idx
+      match KVote.voteUpdate? c lb idx with
       | .ok l => some ("ok " ++ showList l)
       | .error .oob => some "err oob"
       | .error .fuel => some "err fuel") "bad-args"
